@@ -93,6 +93,20 @@ def check_case(rep, data, thr, npix, conn, mask, kind):
                       'detect_sources output is not the raster-ordered labelling of the components with >= npixels pixels',
                       replay)
         return None
+    # the same pixel values in another memory layout (Fortran order, a transposed view, a strided view) are the same image: raster order is
+    # the order of the INDICES, not of the memory (seed C04-r10 labelled Fortran-ordered input column by column)
+    d_ = np.asarray(data)
+    if d_.ndim == 2 and min(d_.shape) >= 2:
+        wide = np.empty((d_.shape[0], 2 * d_.shape[1]), d_.dtype)
+        wide[:, ::2] = d_
+        for lname, dl in (('fortran', np.asfortranarray(d_)), ('transposed-view', np.ascontiguousarray(d_.T).T), ('strided', wide[:, ::2])):
+            tl = np.asfortranarray(thr) if (lname != 'strided' and np.ndim(thr) == 2) else thr
+            sl = impl_detect(dl, tl, npix, conn, None if mask is None else (np.asfortranarray(mask) if lname != 'strided' else mask))
+            same = (sl is None and segm is None) or (sl is not None and segm is not None and not isinstance(sl, tuple) and np.array_equal(sl.data, segm.data))
+            if not same:
+                rep.violation(f'labelling-depends-on-memory-layout:{lname}', f'detect_sources on the same pixel values in {lname} layout gives a different label image',
+                              dict(replay, layout=lname))
+                return None
     if segm is not None:
         from photutils.segmentation import SegmentationImage
         fresh = SegmentationImage(segm.data.copy())
